@@ -1,11 +1,12 @@
 """C05 - bucket lifecycle: create, list, describe, update, delete behave as a keyed map."""
 S = "aw_datastore.storages.sqlite.SqliteStorage."
 D = "aw_datastore.datastore."
+MS = "aw_datastore.storages.memory.MemoryStorage."
 PROP = dict(
     id="C05",
     level="other",
-    contract_modules=["contracts.models", "contracts.sqlite", "contracts.datastore"],
-    spec_modules=["contracts.sqlite", "contracts.datastore"],
+    contract_modules=["contracts.models", "contracts.sqlite", "contracts.datastore", "contracts.memory"],
+    spec_modules=["contracts.sqlite", "contracts.datastore", "contracts.memory"],
     functions=[dict(fn=S + "create_bucket", rt_skip=True),
                dict(fn=S + "delete_bucket", rt_skip=True),
                dict(fn=S + "get_metadata", rt_skip=True),
@@ -15,18 +16,24 @@ PROP = dict(
                dict(fn=D + "Datastore.create_bucket", rt_skip=True),
                dict(fn=D + "Datastore.delete_bucket", rt_skip=True),
                dict(fn=D + "Bucket.metadata", rt_skip=True),
-               dict(fn=S + "commit", rt_skip=True)],
+               dict(fn=S + "commit", rt_skip=True),
+               dict(fn=MS + "create_bucket", rt_skip=True),
+               dict(fn=MS + "delete_bucket", rt_skip=True),
+               dict(fn=MS + "get_metadata", rt_skip=True)],
     timeout_s=20,
     extra=[lambda run: run.storage_histories("C05")],
     technique="run-time refinement check of the real back ends against a reference list over random histories (bounded); "
               "with the sqlite methods proved against contracts over the table state (SQL text parsed from the source)",
-    explanation="deductive (sqlite): create_bucket adds exactly one bucket row (row id never used before) with exactly the metadata given, empty, durable on return, and raises IntegrityError leaving everything unchanged if the id exists; delete_bucket removes the row and all of its events and nothing else, durable on return, ValueError if absent; get_metadata / buckets() describe exactly the live rows. update_bucket builds its SQL dynamically and is covered by the bounded check only. Datastore (sqlite configuration): the handle cache satisfies cache_inv (every cached handle is the handle of an existing bucket, filed under its own id) before and after every method; __getitem__ returns the handle of an existing bucket and raises KeyError exactly when the bucket does not exist; create_bucket / delete_bucket carry the storage postconditions and keep the cache consistent (a deleted bucket's handle is dropped, so re-creation starts from the database). " 
+    explanation="deductive (sqlite): create_bucket adds exactly one bucket row (row id never used before) with exactly the metadata given, empty, durable on return, and raises IntegrityError leaving everything unchanged if the id exists; delete_bucket removes the row and all of its events and nothing else, durable on return, ValueError if absent; get_metadata / buckets() describe exactly the live rows. update_bucket builds its SQL dynamically and is covered by the bounded check only. Datastore (sqlite configuration): the handle cache satisfies cache_inv (every cached handle is the handle of an existing bucket, filed under its own id) before and after every method; __getitem__ returns the handle of an existing bucket and raises KeyError exactly when the bucket does not exist; create_bucket / delete_bucket carry the storage postconditions and keep the cache consistent (a deleted bucket's handle is dropped, so re-creation starts from the database). deductive (memory): create_bucket adds an empty list and a fresh metadata dict with exactly the values given (name defaulting to the id), leaving every other bucket's list and metadata object in place; delete_bucket removes both entries, or raises ValueError and changes nothing; get_metadata returns a fresh equal copy. " 
                 "bounded: random histories of bucket create / update / delete / re-create mixed with event writes and lookups of missing buckets (KeyError for lookup, ValueError for describe/update/delete, nothing changed) on the three back ends against the reference map.",
 )
 
 F = "/repo/aw_datastore/storages/sqlite.py"
 FD = "/repo/aw_datastore/datastore.py"
+FM = "/repo/aw_datastore/storages/memory.py"
 MUTANTS = [
+    (FM, '        if bucket_id in self.db:\n            del self.db[bucket_id]\n', '', True),   # events survive delete_bucket
+    (FM, '        if not name:\n            name = bucket_id\n', '', True),   # name not defaulted
     (FD, '        if bucket_id in self.bucket_instances:\n            del self.bucket_instances[bucket_id]\n        return self.storage_strategy.delete_bucket(bucket_id)', '        return self.storage_strategy.delete_bucket(bucket_id)', True),   # stale handle survives delete_bucket
     (FD, '            if bucket_id in self.buckets():\n                bucket = Bucket(self, bucket_id)', '            if True:\n                bucket = Bucket(self, bucket_id)', True),   # handles for buckets that do not exist
     (FD, '                self.bucket_instances[bucket_id] = bucket\n', '                self.bucket_instances[bucket_id + ""] = bucket\n', False),   # same key
